@@ -6,7 +6,7 @@ command -v java >/dev/null
 test -f /opt/veriftools/tla/tla2tools.jar
 /venv/bin/python -c "import numpy, sys; sys.path.insert(0,'/repo'); import fxpmath"
 mkdir -p evidence replays .work
-for m in spec/JudgeB.tla spec/JudgeN.tla spec/mc/MC_Store.tla spec/mc/MC_BigInt.tla; do
+for m in spec/JudgeB.tla spec/JudgeN.tla spec/FxpTrace.tla spec/mc/MC_Store.tla spec/mc/MC_BigInt.tla spec/mc/MC_Arith.tla spec/mc/MC_Conv.tla spec/mc/MC_Best.tla spec/mc/MC_Text.tla spec/mc/MC_Bits.tla spec/mc/MC_Misc.tla spec/mc/MC_Reduce.tla spec/mc/MC_System.tla spec/mc/MC_Functor.tla spec/mc/MC_Machine.tla; do
   java -DTLA-Library=spec:spec/mc -cp /opt/veriftools/tla/tla2tools.jar:/opt/veriftools/tla/CommunityModules-deps.jar tla2sany.SANY "$m" >/dev/null 2>&1 || { echo "SANY failed on $m"; exit 1; }
 done
 echo setup ok
